@@ -28,6 +28,13 @@ def run(rep, scratch, tier, seed, replay=None):
             k += 1
             lines.append("CLOBBERRACE c%d %s" % (k, ds.did))
             cases.append(("c%d" % k, "CLOBBERRACE", "", ""))
+        k += 1
+        lines.append("DOUBLEFLUSH c%d %s" % (k, ds.did))
+        cases.append(("c%d" % k, "DOUBLEFLUSH", "", ""))
+        for mode in ("ondemand", "preload", "cached", "cached+preload"):
+            k += 1
+            lines.append("READONLYDB c%d %s %s" % (k, ds.did, mode))
+            cases.append(("c%d" % k, "READONLYDB", mode, ""))
         for mode in ("ondemand", "preload", "cached", "cached+preload"):
             k += 1
             lines.append("READONLY c%d %s %s %d" % (k, ds.did, mode, rng.randrange(1, 1 << 30)))
@@ -37,7 +44,7 @@ def run(rep, scratch, tier, seed, replay=None):
     ilines, _, rc, err = filescommon.run_files(scratch, lines, "c16", model=False)
     if rc != 0:
         raise core.FrameworkError("harness exited with %d: %s" % (rc, err[-2000:]))
-    out = {l.split()[1]: l.split() for l in ilines if l.startswith(("CLOBBER ", "READONLY ", "CLOBBERRACE "))}
+    out = {l.split()[1]: l.split() for l in ilines if l.startswith(("CLOBBER ", "READONLY ", "CLOBBERRACE ", "DOUBLEFLUSH ", "READONLYDB "))}
     bad = []
     for cid, what, x, y in cases:
         o = out.get(cid)
@@ -46,6 +53,12 @@ def run(rep, scratch, tier, seed, replay=None):
         if what == "CLOBBERRACE":
             if o[2] != "OK":
                 bad.append((cid, "concurrent creation of the output path: %s (two writers flushing to one path: exactly one may succeed; a file that appears during a Flush must not be replaced by a Flush that reports success)" % o[2]))
+        elif what == "DOUBLEFLUSH":
+            if o[2] != "ERR" or o[3] != "UNCHANGED":
+                bad.append((cid, "second Flush of the same writer onto its own (now existing) output: outcome %s, file %s (model: ERR, UNCHANGED)" % (o[2], o[3])))
+        elif what == "READONLYDB":
+            if o[2] != "OK" or o[3] != "UNCHANGED":
+                bad.append((cid, "OpenIndexFromBoltDatabase(%s) on a handle opened read-write + queries + close: %s, file %s" % (x, o[2], o[3])))
         elif what == "CLOBBER":
             # model (Files.fs_flush): existing path -> Err and file system unchanged
             if o[2] != "ERR" or o[3] != "UNCHANGED":
